@@ -29,7 +29,7 @@ func NewHmacDrbg(newHash func() hash.Hash, securityLevel SecurityLevel, gm bool,
 	hd.hashSize = md.Size()
 
 	// here for the min length, we just check <=0 now
-	if len(entropy) == 0 || len(entropy) >= MAX_BYTES {
+	if len(entropy) == 0 || (hd.gm && len(entropy) < hd.hashSize) || len(entropy) >= MAX_BYTES {
 		return nil, errors.New("drbg: invalid entropy length")
 	}
 
